@@ -47,6 +47,8 @@ def labels(draw, n, kind):
     if kind == "negint":
         perm = shuffled(draw, range(-3, n + 2))[:n]
         return list(perm)
+    if n > len(STR_LABELS):
+        return list(STR_LABELS) + ["s%d" % i for i in range(n - len(STR_LABELS))]  # extra-long cases: no shuffle (few draws)
     perm = shuffled(draw, STR_LABELS)[:n]
     return list(perm)
 
@@ -264,6 +266,8 @@ def config(draw, families=("simple", "simple_n", "distance"), ne=None, width="ra
             cfg["obs_noise_ne"] = draw(st.sampled_from([0.5, 1.0, 2.0, 5.0]))
         if chance(draw, 3):
             cfg["non_emitting_length_factor"] = draw(st.sampled_from([0.25, 0.5, 0.9, 1.0]))
+        if chance(draw, 2):
+            cfg["ne_maxnb"] = draw(st.sampled_from([1, 2, 3]))  # matcher.non_emitting_states_maxnb (default 100)
     if fam == "nk":
         cfg["beta"] = draw(st.sampled_from([1 / 6, 0.5, 1.0, 2.0]))
         if cfg["non_emitting_states"] and chance(draw, 3):
@@ -301,6 +305,80 @@ def ne_case(draw, max_nodes=8, max_len=7, families=("simple", "simple_n", "dista
         c["max_dist_init"] = None
     if c.get("min_prob_norm") is not None and c["min_prob_norm"] > 0.01:
         c["min_prob_norm"] = draw(st.sampled_from([None, 0.001]))
+    return {"graph": g, "trace": t, "config": c}
+
+
+@st.composite
+def _xl_ne_case(draw, families, first_order):
+    """A straight road of 120-160 segments observed every 4th or 5th segment (30-40 observations): more than a hundred
+    non-emitting states on the best path in total (the default cap of 100 applies per gap, not in total)."""
+    T, k = pick(draw, [(36, 4), (40, 4), (30, 5)])
+    n = k * (T - 1) + 2
+    step = pick(draw, [1.0, 2.0])
+    base_lab = pick(draw, [0, 1000])
+    oneway = chance(draw, 3)
+    g = [[base_lab + i, [0.0, i * step], [base_lab + j for j in ((i + 1,) if oneway else (i - 1, i + 1)) if 0 <= j < n]] for i in range(n)]
+    off = pick(draw, [0.0, 0.05, -0.1])
+    t = [[off, (j * k + pick(draw, [0.25, 0.5, 0.75])) * step] for j in range(T)]
+    c = draw(config(families=families, ne=True, width=None, first_order=first_order, cutoffs=False))
+    c["obs_noise"] = 0.5 * step
+    c["max_dist"] = c["max_dist_init"] = 2.5 * step
+    c["max_lattice_width"] = pick(draw, [None, None, 3])
+    for key in ("obs_noise_ne", "dist_noise", "dist_noise_ne"):
+        if key in c:
+            c[key] = c[key] * step
+    c.pop("ne_maxnb", None)
+    return {"graph": g, "trace": t, "config": c, "xl": True}
+
+
+@st.composite
+def long_ne_case(draw, families=("simple", "simple_n", "distance"), width=None, first_order=False):
+    """A long road (10-24 nodes) observed only every k-th segment (k = 2..4, 3-6 observations, little noise): the best path
+    holds many non-emitting states in total (up to ~15), k-1 in every gap.  The cap on non-emitting states per gap
+    (matcher.non_emitting_states_maxnb) is left at its default or set just around what a gap needs."""
+    if chance(draw, 1, 20):
+        return draw(_xl_ne_case(tuple(families), first_order))
+    k = pick(draw, [2, 2, 3, 3, 4])
+    T = pick(draw, [3, 3, 4, 4, 5, 6])
+    n = min(24, k * (T - 1) + 2 + draw(INT(0, 3)))
+    kind = pick(draw, ["int", "int", "str"])
+    labs = draw(labels(n + 1, kind))
+    labs, side = labs[:n], labs[n]
+    oneway = chance(draw, 3)
+    step = pick(draw, [1.0, 1.0, 1.5, 2.0])
+    y, x, ang = 0.0, 0.0, 0.0
+    locs = []
+    for _ in range(n):
+        locs.append((round(y, 2), round(x, 2)))
+        ang = max(-0.6, min(0.6, ang + pick(draw, [0.0, 0.0, 0.0, 0.2, -0.2])))
+        y, x = y + step * math.sin(ang), x + step * math.cos(ang)
+    nbrs = [[] for _ in range(n)]
+    for i in range(n - 1):
+        nbrs[i].append(labs[i + 1])
+        if not oneway:
+            nbrs[i + 1].append(labs[i])
+    if chance(draw, 3) and n >= 6:
+        # a side street somewhere along the road
+        a = draw(INT(1, n - 2))
+        labs = labs + [side]
+        locs.append((round(locs[a][0] + 1.0, 2), round(locs[a][1] + 0.1, 2)))
+        nbrs.append([labs[a]])
+        nbrs[a].append(side)
+    g = [[labs[i], list(locs[i]), nbrs[i]] for i in range(len(labs))]
+    sigma = pick(draw, [0.0, 0.05, 0.1])
+    t = []
+    for j in range(T):
+        i = min(j * k, n - 2)
+        f = pick(draw, [0.25, 0.5, 0.5, 0.75])
+        p = (locs[i][0] + f * (locs[i + 1][0] - locs[i][0]), locs[i][1] + f * (locs[i + 1][1] - locs[i][1]))
+        t.append([round(p[0] + sigma * draw(INT(-100, 100)) / 50.0, 3), round(p[1] + sigma * draw(INT(-100, 100)) / 50.0, 3)])
+    c = draw(config(families=tuple(families), ne=True, width=width, first_order=first_order, cutoffs=False))
+    c["obs_noise"] = pick(draw, [0.25, 0.5])
+    if c.get("max_lattice_width") is not None and c["max_lattice_width"] < 2:
+        c["max_lattice_width"] = 2
+    c["ne_maxnb"] = pick(draw, [None, None, k - 1, k, k + 1])
+    if c["ne_maxnb"] is None:
+        del c["ne_maxnb"]
     return {"graph": g, "trace": t, "config": c}
 
 
